@@ -519,6 +519,13 @@ impl AsEntry {
     /// The associated data includes the raw protobuf encoded info of the path segment and all
     /// previous AS entries in the path segment.
     ///
+    /// The entry is located in the path segment by position, not by value: if `self` is (a
+    /// reference to) one of the entries of `path_segment`, the associated data covers exactly the
+    /// entries in front of it. Otherwise the entry is taken to be the next entry to be appended,
+    /// and the associated data covers all entries of the path segment. Looking the entry up by
+    /// value would allow a copy of an earlier entry to be validated against the associated data
+    /// of the original.
+    ///
     /// Returns the total length of the associated data and an iterator over the associated data
     /// slices.
     #[inline]
@@ -526,11 +533,17 @@ impl AsEntry {
         &self,
         path_segment: &'seg PathSegment<SignedAsEntry>,
     ) -> (usize, impl Iterator<Item = &'seg [u8]>) {
+        let preceding = path_segment
+            .as_entries
+            .iter()
+            .position(|e| std::ptr::eq(&e.entry, self))
+            .unwrap_or(path_segment.as_entries.len());
+
         let entry_iter = path_segment
             .as_entries
             .iter()
             // Take all entries before the current one in the path segment.
-            .take_while(|e| e.entry != *self)
+            .take(preceding)
             .flat_map(|entry| {
                 [
                     entry.signed.header_and_body.as_slice(),
